@@ -730,6 +730,14 @@ impl Watchdog {
     }
 }
 
+/// Panic payload: a scenario asked for the state of a node whose actor thread panicked or is
+/// stuck inside the library.
+#[derive(Debug, Clone)]
+pub struct DeadActor {
+    pub node: usize,
+    pub why: String,
+}
+
 /// Guard making sure only one world exists per process.
 static WORLD_LIVE: Mutex<bool> = Mutex::new(false);
 
@@ -1100,6 +1108,11 @@ impl World {
 
     /// Non-perturbing snapshot of a parked node.
     pub fn snapshot(&self, node: usize) -> ActorSnapshot {
+        if self.nodes[node].blocked || self.nodes[node].exited == Some(true) {
+            // the scenario did not expect this node to be gone: unwind to the check's driver, which
+            // turns this into an "actor died" violation of its property (see `checks::guard_dead_actor`)
+            std::panic::panic_any(DeadActor { node, why: self.death_reason(node) });
+        }
         let sync = &self.nodes[node].sync;
         let mut b = sync.lock();
         assert_eq!(b.phase, Phase::Parked, "snapshot of a node that is not parked");
